@@ -601,6 +601,8 @@ def batch_search(ctx: Ctx, runner: Runner) -> None:
         raise ToolFailure("Driver/C20 returned %d verdicts for %d runs" % (len(verdicts), len(results)))
     bad = 0
     sampled = False
+    seen_sigs: set = set()
+    nhang = 0
     for job, res, v in zip(jobs, results, verdicts):
         ctx.case(("batch", hashlib.sha1(json.dumps(job["files"], sort_keys=True).encode("utf8", "surrogatepass")).hexdigest(), job["flags"]),
                  nontrivial=True)
@@ -621,7 +623,18 @@ def batch_search(ctx: Ctx, runner: Runner) -> None:
         if v != "accepted":
             bad += 1
             ctx.count("disagreements_checked")
-            if bad <= ctx.pick(6, 20):
+            sig0 = classify(res, v)
+            sigkey = (sig0.get("class"), sig0.get("exc"), sig0.get("file"), sig0.get("frame"), sig0.get("reason"), sig0.get("loop"))
+            if sig0["class"] == "hang":
+                # a time-out may be a slow run: each one is re-examined (a few at most)
+                nhang += 1
+                if nhang <= 4:
+                    handle_batch_failure(ctx, runner, job, res, v)
+                continue
+            if sigkey in seen_sigs:
+                continue
+            if len(seen_sigs) < ctx.pick(8, 24):
+                seen_sigs.add(sigkey)
                 handle_batch_failure(ctx, runner, job, res, v)
     ctx.coverage["batch_rejected_traces"] = bad
 
@@ -790,6 +803,7 @@ def daemon_search(ctx: Ctx, runner: Runner) -> None:
     verdicts = ctx.lean_driver("Driver/C20.lean", lines) if lines else []
     vmap = dict(zip(index, verdicts))
     reported = 0
+    seen_sigs: set = set()
     probes: list[tuple[int, int]] = []
     for h, (hist, recs) in enumerate(zip(hists, all_records)):
         state: dict[str, str] = {}
@@ -824,6 +838,10 @@ def daemon_search(ctx: Ctx, runner: Runner) -> None:
                 known = ctx.match_known(obs)
                 if known is not None and any(k == known["id"] for k, _ in ctx.known_hits):
                     continue
+                sigkey = (obs["class"], obs.get("exc"), obs.get("file"), obs.get("frame"), obs.get("reason"))
+                if sigkey in seen_sigs:
+                    continue
+                seen_sigs.add(sigkey)
                 if reported < ctx.pick(6, 20):
                     reported += 1
                     prev = hist[i - 1]["write"] if i else {}
@@ -856,7 +874,10 @@ def daemon_search(ctx: Ctx, runner: Runner) -> None:
     for (h, i), (rc, fresh) in zip(probes, fresh_results):
         r = all_records[h][i]
         resp = r.get("resp") or {}
-        got = [l for l in (resp.get("out") or "").split("\n") if l.strip()]
+        # (the `--install-types` hint is only given by the batch front end: not part of the comparison)
+        hint = '(or run "mypy --install-types" to install all missing stub packages)'
+        got = [l for l in (resp.get("out") or "").split("\n") if l.strip() and hint not in l]
+        fresh = [l for l in fresh if hint not in l]
         ctx.count("daemon_probes_compared")
         # (the status is not compared: `dmypy check` answers 1 for note-only output, `mypy` exits 0 — C13's subject)
         if sorted(got) == sorted(fresh):
